@@ -392,10 +392,10 @@ def run(tier: str, col: common.Collector) -> None:
         # all 1- and 2-ID combos, a seeded sample of the 3-ID combos
         small = [c for c in combos if len(c) < 3]
         big = [c for c in combos if len(c) == 3]
-        combos = small + r.sample(big, min(len(big), 60))
+        combos = small + r.sample(big, min(len(big), 160))
     chunks = [combos[i::common.NCPU] for i in range(common.NCPU)]
     common.pmap(part_merges, [(tier, ch) for ch in chunks if ch], col)
-    nrand = 40 if tier == "quick" else 1500
+    nrand = 120 if tier == "quick" else 1500
     common.pmap(part_random, [(w, nrand) for w in range(common.NCPU)], col)
     col.notes["merge_combinations"] = len(combos)
     for need in ("text_logs_read", "first_frames_acknowledged", "merge_streams", "random_streams"):
